@@ -468,11 +468,41 @@ class Corr:
                 r = getattr(self, name)(p, sim)
             else:
                 r = getattr(self, name)(p)
+            r = list(r) + self.frame(name, p)
             if not r:
                 self.stats.ok += 1
             for mm in r:
                 mm["t"] = st["t"]
             out.extend(r)
+        return out
+
+    # what each phase may write (fields of the economy snapshot); everything else is left bit for bit as it was,
+    # as in the model, where each phase is a function returning a record updated in those fields only
+    WRITES = {
+        "events_pre": {"deltaTot", "lost", "arbDelta", "reb", "nE", "dTot", "rebTot", "rebProd", "rebProdTot"},
+        "overprod": {"alpha"},
+        "production": {"prod", "in_shortage"},
+        "distribute": {"stock", "fdUnmet", "rebProd", "rebProdTot", "reb", "rebTot", "dTot", "deliv"},
+        "events_post": set(),
+        "orders": {"orders", "ordersTot", "dTot"},
+    }
+
+    def frame(self, name, p) -> list:
+        out = []
+        if p.get("exc") or not p.get("pre") or not p.get("post"):
+            return out
+        a, b = p["pre"].get("econ"), p["post"].get("econ")
+        if a is None or b is None:
+            return out
+        for key, va in a.items():
+            if key in self.WRITES[name] or key not in b:
+                continue
+            vb = b[key]
+            same = (va is None and vb is None) or (va is not None and vb is not None and (
+                np.array_equal(np.asarray(va, dtype=float), np.asarray(vb, dtype=float), equal_nan=True)
+                if not isinstance(va, (bool, int)) else va == vb))
+            if not same:
+                out.append(Mismatch(phase=name, var=key, what=f"the phase changed `{key}`, which the model's phase leaves untouched"))
         return out
 
 
